@@ -582,7 +582,7 @@ func checkRank(r *run, sorted []int64, q float64, v time.Duration, name, when, s
 	// that from the ideal rank
 	tags := map[string]string{"when": when, "q": name, "shape": shape, "cause": "other", "arrival": r.arrival}
 	params := map[string]float64{"n": float64(n)}
-	below := sort.Search(n, func(i int) bool { return sorted[i] >= int64(v) })  // observations < v
+	below := sort.Search(n, func(i int) bool { return sorted[i] >= int64(v) })   // observations < v
 	notAbove := sort.Search(n, func(i int) bool { return sorted[i] > int64(v) }) // observations <= v
 	// v sits between the 1-based ranks `below` and `notAbove+1` (it equals the observations in between, if any)
 	far := 0.0
